@@ -59,6 +59,14 @@ def unfold_left(a, lo, hi):
                                       rtot(a, lo, hi) == rtot(a, lo + 1, hi) + val(z3.Select(a, lo))))
 
 
+def concat(a, lo, mid, hi):
+    """lo <= mid <= hi  =>  rbag(a,lo,hi) = rbag(a,lo,mid) (+) rbag(a,mid,hi)   -- a LEMMA (proved by induction in lemmas.py); same for rtot"""
+    x, y = z3.Ints("x y")
+    plus = (x + y).decl()
+    return z3.Implies(z3.And(lo <= mid, mid <= hi), z3.And(rbag(a, lo, hi) == z3.Map(plus, rbag(a, lo, mid), rbag(a, mid, hi)),
+                                                         rtot(a, lo, hi) == rtot(a, lo, mid) + rtot(a, mid, hi)))
+
+
 def empty_range(a, lo, hi):
     return z3.Implies(lo >= hi, z3.And(rbag(a, lo, hi) == EMPTY, rtot(a, lo, hi) == 0))
 
